@@ -45,7 +45,17 @@ fn diamond_world(ct: Ct) -> (crate::world::World, Vec<lightning::ln::types::Chan
 }
 
 pub fn build(s: &LineScn, which: &str) -> WorldSys {
-	let (w, chans) = if s.name.contains("diamond") { diamond_world(s.ct) } else { line_world(s.ct, s.nodes, &s.async_from_start) };
+	let (w, chans) = if s.name.contains("diamond") {
+		diamond_world(s.ct)
+	} else if s.name.contains("-tight-") {
+		let (w, chans) = crate::checks::c01::tight_world(s.ct, 253);
+		for i in s.async_from_start.iter() {
+			w.nodes[*i].persist.set_async_all(true);
+		}
+		(w, chans)
+	} else {
+		line_world(s.ct, s.nodes, &s.async_from_start)
+	};
 	let infos = chan_infos(&w, &chans);
 	let po = PersistOrderOracle::new(&w, infos.clone());
 	let rev = RevocationOracle::new(&w, infos.clone());
@@ -57,6 +67,7 @@ pub fn build(s: &LineScn, which: &str) -> WorldSys {
 	sys.dev = s.dev.clone();
 	sys.crash_nodes = s.crash_nodes.clone();
 	sys.max_disconnects = s.max_disconnects;
+	sys.judge_probes = !s.name.contains("-race");
 	sys.settle_on_chain = s.on_chain || !s.crash_nodes.is_empty();
 	for i in s.async_from_start.iter() {
 		sys.async_on[*i] = true;
@@ -299,6 +310,29 @@ pub fn scenarios(tier: Tier, which: &str) -> Vec<LineScn> {
 				async_from_start: vec![1],
 				max_disconnects: 0,
 				on_chain: true,
+				slow_user: vec![],
+			});
+		}
+		if which == "C03" && ct != Ct::ZeroFee {
+			// the payer's disk is slow (a monitor write stays in flight from some point on), it sends exactly its
+			// limit meanwhile (queued), and the peer adds an HTLC of its own before the write completes: when the
+			// queued HTLC is finally released it may no longer be affordable - the payer must then be told
+			v.push(LineScn {
+				name: format!("{}-ab-tight-slowdisk-limit-race", n),
+				ct,
+				nodes: 2,
+				ops: vec![
+					Op::Send { from: 0, hops: vec![(1, 0)], amount_msat: 10_000_000, policy: ClaimPolicy::Claim },
+					Op::Probe { node: 0, chan: 0, kind: crate::sys::ProbeKind::AtLimit },
+					Op::Send { from: 1, hops: vec![(0, 0)], amount_msat: 5_000_000, policy: ClaimPolicy::Claim },
+				],
+				ops_first: false,
+				dev: Deviations { reorder: None, early_op: Some(1), complete_reorder: None, hold_completions: Some(1), early_release: Some(0), ..Deviations::default() },
+				k: 3,
+				crash_nodes: vec![],
+				async_from_start: vec![0],
+				max_disconnects: 0,
+				on_chain: false,
 				slow_user: vec![],
 			});
 		}
